@@ -5,7 +5,7 @@ use super::common::*;
 use crate::model::*;
 use crate::rng::Rng;
 use crate::runner::{Case, Ctx, Prop, Tier, Violation};
-use crate::seams::{self, Sched, SchedState, Xfer};
+use crate::seams::{self, Sched, SchedState, SimSink, Xfer};
 use crate::sut::{guard, sut, ReadCfg};
 use mla_cbind as c;
 use std::collections::BTreeMap;
@@ -475,7 +475,7 @@ impl Prop for C20 {
         "exploration"
     }
     fn rule(&self) -> String {
-        "run kinds. create: a seeded valid writer history (as C01, names without NUL; one run in 150 with a single append of 4..10 MiB) expressed through mla_config_* / mla_archive_* with a simulated write callback that accepts 1 byte, 1..n bytes or everything per call; the bytes collected by the callback must be an archive the Rust reader (prod build) reads back to the abstract model. extract: the archive goes through mla_roarchive_extract with simulated read/seek callbacks (1 byte, 1..n per read) and a file callback handing out one simulated writer per file (splitting schedules), declining nothing, a seeded subset, every file, or every file but the last one; the recipients' public keys are given in one call or one call per key, the reader's private key now and then after two keys of non-recipients: every accepted writer holds exactly the model's bytes, declined names receive nothing. failures: write callback failing from its k-th call on or ONLY at its k-th call, in three styles - error code with the count untouched; part of the buffer stored and reported, then the error code (what the project's own C samples do on ferror); whole length reported, nothing stored, error code - (whenever the callback did return a failure code, some call of the history or the final close must return a non-success status), read callback failing at its k-th call, the first per-file writer failing at its k-th call (same styles, same exact criterion), flush callback failing, missing private key: the status must not be success. null: each of 24 calls with a NULL handle, NULL out-pointer, NULL callback or a handle the interface itself cleared on release (config after mla_archive_new / mla_roarchive_extract, file after close, archive after close, double close) must return a non-success status; the worker process must survive. distinct_nontrivial = distinct (kind, recipients, schedule kinds, failure placement, outcome) signatures.".into()
+        "run kinds. create: a seeded valid writer history (as C01, names without NUL; one run in 150 with a single append of 4..10 MiB) expressed through mla_config_* / mla_archive_* with a simulated write callback that accepts 1 byte, 1..n bytes or everything per call; the bytes collected by the callback must be an archive the Rust reader (prod build) reads back to the abstract model. extract: the archive (one run in three: the same files written by the Rust library without layers, compressed only, or encrypted only) goes through mla_roarchive_extract with simulated read/seek callbacks (1 byte, 1..n per read) and a file callback handing out one simulated writer per file (splitting schedules), declining nothing, a seeded subset, every file, or every file but the last one; the recipients' public keys are given in one call or one call per key, the reader's private key now and then after two keys of non-recipients: every accepted writer holds exactly the model's bytes, declined names receive nothing. failures: write callback failing from its k-th call on or ONLY at its k-th call, in three styles - error code with the count untouched; part of the buffer stored and reported, then the error code (what the project's own C samples do on ferror); whole length reported, nothing stored, error code - (whenever the callback did return a failure code, some call of the history or the final close must return a non-success status), read callback failing at its k-th call, the first per-file writer failing at its k-th call (same styles, same exact criterion), flush callback failing, missing private key: the status must not be success. null: each of 24 calls with a NULL handle, NULL out-pointer, NULL callback or a handle the interface itself cleared on release (config after mla_archive_new / mla_roarchive_extract, file after close, archive after close, double close) must return a non-success status; the worker process must survive. distinct_nontrivial = distinct (kind, recipients, schedule kinds, failure placement, outcome) signatures.".into()
     }
     fn assumptions(&self) -> Vec<String> {
         vec![
@@ -539,6 +539,7 @@ impl Prop for C20 {
         // which files the file callback declines: none, a seeded subset, ALL of them, or all but the last one
         case.params.insert("decline_mask".into(), match rng.below(8) { 0..=3 => 0, 4 | 5 => rng.below(32) as i64, 6 => 0x3fff_ffff, _ => -2 });
         case.params.insert("split_keys".into(), i64::from(rng.chance(1, 3)));
+        case.params.insert("lib_layers".into(), if rng.chance(1, 3) { rng.below(3) as i64 } else { -1 });
         case.params.insert("decoy_privs".into(), if rng.chance(1, 4) { 2 } else { 0 });
         case.params.insert("fail_kind".into(), rng.below(5) as i64);
         case.params.insert("fail_at".into(), rng.range(0, 30) as i64);
@@ -607,7 +608,27 @@ impl Prop for C20 {
             let mask = case.param("decline_mask", 0);
             // -2: every file but the last one is declined
             let decline: Vec<String> = if mask == -2 { model.order.iter().take(model.order.len().saturating_sub(1)).cloned().collect() } else { model.order.iter().enumerate().filter(|(i, _)| (mask as u64) & (1 << (i % 5)) != 0).map(|(_, n)| n.clone()).collect() };
-            let ex = match guard(|| c_extract(case, &w.image, &src_sched, &file_sched, None, None, decline.clone(), true)) {
+            // the archive to extract: the one just created through the C interface (always compressed + encrypted), or -
+            // one run in three - the same files written by the Rust library with another layer set (none / compress /
+            // encrypt): the C reader must extract any archive, and without the encryption layer its seek callback sees
+            // the reader's own seeks from the end
+            let lib_layers = case.param("lib_layers", -1);
+            let (ext_image, with_key): (Vec<u8>, bool) = if lib_layers >= 0 {
+                let mut lcfg = case.cfg.clone();
+                lcfg.layers = lib_layers as u8 & 3;
+                lcfg.recipients = if lcfg.enc() { case.cfg.recipients } else { 0 };
+                let lsink = SimSink::new(&Sched::Full);
+                let lw = s.write(&lcfg, &case.ops, lsink.clone());
+                if lw.panic.is_some() || lw.from_config_err.is_some() || lw.results.iter().any(Result::is_err) {
+                    v.push(Violation::new("workload-write-failed", "write", format!("the Rust writer failed on the same history: {:?} {:?}", lw.panic, lw.results.iter().find(|r| r.is_err()))));
+                    return v;
+                }
+                seams::fired("c_extraction_of_a_rust_written_archive");
+                (lsink.data(), lcfg.enc())
+            } else {
+                (w.image.clone(), true)
+            };
+            let ex = match guard(|| c_extract(case, &ext_image, &src_sched, &file_sched, None, None, decline.clone(), with_key)) {
                 Ok(e) => e,
                 Err(p) => {
                     v.push(Violation::new("c-api-panic", "extract", format!("extraction through the C interface panicked: {p}")));
